@@ -498,6 +498,15 @@ func trySendObject(ctx context.Context, object string, objectsFound *atomic.Uint
 		if objectsFound.Add(1) > maxResults {
 			return
 		}
+		// This object has been counted towards maxResults, so it must be delivered: the consumer cancels ctx
+		// as soon as the counter reaches maxResults, and a send that also watches ctx could then drop it
+		// (the response would hold fewer objects than were found and counted). The channel has room for
+		// maxResults objects and at most maxResults pass the counter, so this send does not block.
+		select {
+		case resultsChan <- ListObjectsResult{ObjectID: object}:
+			return
+		default:
+		}
 	}
 	concurrency.TrySendThroughChannel(ctx, ListObjectsResult{ObjectID: object}, resultsChan)
 }
